@@ -144,7 +144,16 @@ fn exact_guard(rng: &mut Rng) -> (T, T) {
     };
     let ext = *rng.pick(&[0i128, 1]);
     match guard_for(0, ext, &body) {
-        Some((g, _)) => (g, T::nil()),
+        Some((g, _)) => {
+            // the guard on its own, or evaluated inside a still-pending GC-candidate operator
+            let g = match rng.below(5) {
+                0 => call(2, vec![quote(g), quote(atom(&[]))]),
+                1 => call(11, vec![g]),
+                2 => call(9, vec![g, quote(atom(&[]))]),
+                _ => g,
+            };
+            (g, T::nil())
+        }
         None => (quote(int(1)), T::nil()),
     }
 }
@@ -161,6 +170,20 @@ fn misdeclared_guard(rng: &mut Rng) -> (T, T) {
     let ext = *rng.pick(&[0i128, 1, 1, 2]);
     let declared = 100 + rng.below(2000);
     (call(36, vec![quote(int(declared as i128)), quote(int(ext)), quote(body), quote(atom(&[]))]), T::nil())
+}
+
+/// a tiny program (cost well below 1200) whose single operator call ends in an ordinary error after it has
+/// passed at least one of its own cost checks: every budget up to that point can then be swept
+fn small_failing_op_program(rng: &mut Rng) -> (T, T) {
+    let op = *rng.pick(&[16u8, 17, 18, 11, 14, 24, 25, 26, 19, 20, 21, 9, 10, 13, 12, 22, 23, 27, 33, 34]);
+    let k = rng.below(3) as usize;
+    let mut args: Vec<T> = (0..k).map(|_| quote(progs::random_int(rng))).collect();
+    // the offending operand: a pair where an atom is required (reached after the earlier operands were charged)
+    args.push(if rng.chance(1, 2) { int(1) } else { quote(T::pair(int(1), int(2))) });
+    if rng.chance(1, 3) {
+        args.push(quote(int(3)));
+    }
+    (call(op, args), T::pair(int(1), int(2)))
 }
 
 /// one program from the union of the directed generators
@@ -346,6 +369,8 @@ pub fn oracle(name: &str, rng: &mut Rng, n: usize, tier: &str) -> OracleReport {
             progs::random_path_program(rng)
         } else if name == "runtime" && i % 4 == 1 {
             bls_valid_program(rng)
+        } else if name == "runtime" && i % 4 == 3 {
+            small_failing_op_program(rng)
         } else if name == "hide" && i % 5 == 1 {
             secp4_program(rng)
         } else if name == "hide" && i % 5 == 2 {
@@ -364,7 +389,7 @@ pub fn oracle(name: &str, rng: &mut Rng, n: usize, tier: &str) -> OracleReport {
             "repr" if i % 4 == 3 => random_flags(rng) | ENABLE_GC,
             "repr" if i % 8 == 4 => *rng.pick(&[0x1u32, 0x217, 0x3, 0x11]), // exact_guard(): cost for the old model
             "total" if i % 5 == 4 => random_flags(rng) | ENABLE_GC,
-            "hide" if i % 5 == 3 => 0, // exact_guard() declares the cost for default flags
+            "hide" if i % 5 == 3 => *rng.pick(&[0u32, ENABLE_GC, ENABLE_GC | 0x10, 0x100]), // exact_guard(): cost for the old model
             "hide" => (random_flags(rng) & !(NO_UNKNOWN_OPS | NEW_COST_MODEL)) | if i % 5 == 2 && i % 2 == 0 { 0x100 } else { 0 },
             "runtime" => random_flags(rng) & !(ENABLE_GC | DISABLE_OP),
             _ => random_flags(rng),
@@ -442,9 +467,22 @@ pub fn oracle(name: &str, rng: &mut Rng, n: usize, tier: &str) -> OracleReport {
                 // compose with the earlier GC restores (counts after the run)
                 if i % 4 == 3 {
                     let blob = T::Atom(rng.bytes(600));
-                    let body = call(13, vec![call(14, vec![quote(blob.clone()), quote(blob)])]);
+                    let small = call(14, vec![quote(atom(b"aaaaaaaaaaaaaaaaaaaa")), quote(atom(b"bbbbbbbbbbbbbbbbbbbb"))]);
+                    let body = match rng.below(4) {
+                        0 => call(13, vec![call(14, vec![quote(blob.clone()), quote(blob)])]),
+                        // a GC candidate that returns a *pair*, next to an allocation made before it runs
+                        1 => call(4, vec![call(20, vec![quote(int(10)), quote(int(3))]), small]),
+                        2 => call(4, vec![call(2, vec![quote(call(4, vec![int(1), int(1)])), small.clone()]), small]),
+                        _ => call(4, vec![call(20, vec![quote(int(-7)), quote(int(2))]), call(14, vec![quote(blob.clone()), quote(blob)])]),
+                    };
                     let fl = flags & !(ENABLE_GC | NO_UNKNOWN_OPS);
-                    if let Some((g, _)) = guard_for(fl, *rng.pick(&[0i128, 1]), &body) {
+                    if let Some((g0, _)) = guard_for(fl, *rng.pick(&[0i128, 1]), &body) {
+                        // the guard itself inside a pending GC candidate half of the time
+                        let g = match rng.below(4) {
+                            0 => call(2, vec![quote(g0), quote(atom(&[]))]),
+                            1 => call(11, vec![g0]),
+                            _ => g0,
+                        };
                         let a = run_full("chia", fl, 0, &g, &T::nil(), "");
                         let b = run_full("chia", fl | ENABLE_GC, 0, &g, &T::nil(), "");
                         if a.res != b.res || a.counts != b.counts {
@@ -557,12 +595,63 @@ pub fn oracle(name: &str, rng: &mut Rng, n: usize, tier: &str) -> OracleReport {
                     if !same && !uses_chia_only_ops(&prog) {
                         rep.fail("runtime", format!("{} chia={:?} runtime={:?}", d(), base.res, r.res));
                     }
+                    // … and under the budgets where the outcome changes: for a run that ends in an ordinary
+                    // error, b* = the smallest budget under which ChiaDialect no longer says CostExceeded;
+                    // for a successful run, its cost.  Both dialects must agree at b* - 1, b* and b* + 1.
+                    if same && !uses_chia_only_ops(&prog) {
+                        let not_cost = |o: &Out| !matches!(&o.res, Err((k, _)) if k == "CostExceeded");
+                        let bstar = match &base.res {
+                            Ok((c, _)) => Some(*c),
+                            Err(_) => {
+                                let mut hi = 64u64;
+                                while hi < (1 << 40) && !not_cost(&run_full("chia", flags, hi, &prog, &env, "")) {
+                                    hi *= 4;
+                                }
+                                if hi >= (1 << 40) {
+                                    None
+                                } else {
+                                    let mut lo = 1u64;
+                                    while lo < hi {
+                                        let mid = (lo + hi) / 2;
+                                        if not_cost(&run_full("chia", flags, mid, &prog, &env, "")) { hi = mid } else { lo = mid + 1 }
+                                    }
+                                    Some(lo)
+                                }
+                            }
+                        };
+                        if let Some(b) = bstar {
+                            // every budget up to b* when that is cheap (the remaining budget is then exactly 0
+                            // at some operator dispatch for one of them), else the last 1500 and a sample
+                            let mut budgets: Vec<u64> = if b <= 1200 && (base.res.is_err() || i % 3 == 0) {
+                                (1..=b + 1).collect()
+                            } else {
+                                (b.saturating_sub(150).max(1)..=b + 1).collect()
+                            };
+                            if b > 1200 {
+                                for _ in 0..30 {
+                                    budgets.push(1 + rng.below(b));
+                                }
+                            }
+                            for bb in budgets {
+                                let c = run_full("chia", flags, bb, &prog, &env, "");
+                                let r = run_full("runtime", flags, bb, &prog, &env, "");
+                                let same = match (&c.res, &r.res) {
+                                    (Ok(x), Ok(y)) => x == y,
+                                    (Err((k1, _)), Err((k2, _))) => k1 == k2,
+                                    _ => false,
+                                };
+                                if !same {
+                                    rep.fail("runtime", format!("{} budget={} chia={:?} runtime={:?}", d(), bb, c.res, r.res));
+                                }
+                            }
+                        }
+                    }
                 }
             }
             "repr" => {
                 // fresh vs re-tagged atoms vs pre-populated allocator
                 let natoms = progs::count_atoms(&prog) + progs::count_atoms(&env);
-                let tags: String = (0..natoms).map(|_| if rng.chance(1, 2) { 'H' } else { '-' }).collect();
+                let tags: String = (0..natoms).map(|_| *rng.pick(&['H', 'H', 'H', '-', '-', '-', '-', 'E'])).collect();
                 let o = run_full("chia", flags, 0, &prog, &env, &tags);
                 let same = match (&base.res, &o.res) {
                     (Ok(x), Ok(y)) => x == y,
@@ -1062,6 +1151,76 @@ pub fn oracle_costmodel_ops(rng: &mut Rng, n: usize, tier: &str) -> OracleReport
         if let (Ok((_, v1)), Ok((_, v2))) = (&old.res, &new.res) {
             if v1 != v2 {
                 rep.fail("costmodel_ops", format!("{} old={} new={}", desc(&prog, &env, flags), v1, v2));
+            }
+        }
+    }
+    rep
+}
+
+/// C02 at operator level (as one-call programs): every request of the `op_fastpath` / `op_limits` streams
+/// plus calls with 0 and 1 padded operands of the variadic operators: a run that costs C under an
+/// unlimited budget succeeds identically under budget C and, under the old cost model, fails with
+/// CostExceeded under C - 1 (an operator's early checks must never be stricter than what it charges)
+pub fn oracle_budget_ops(rng: &mut Rng, n: usize, tier: &str) -> OracleReport {
+    let mut rep = OracleReport::default();
+    let code = |name: &str| -> Option<u8> {
+        Some(match name {
+            "op_add" => 16, "op_subtract" => 17, "op_multiply" => 18, "op_div" => 19, "op_divmod" => 20, "op_gr" => 21, "op_ash" => 22,
+            "op_lsh" => 23, "op_logand" => 24, "op_logior" => 25, "op_logxor" => 26, "op_lognot" => 27, "op_mod" => 61, "op_modpow" => 60,
+            "op_sha256" => 11, "op_concat" => 14, "op_any" => 33, "op_all" => 34,
+            _ => return None,
+        })
+    };
+    let mut lines: Vec<String> = progs::generate_op_fastpath(rng, n, tier).into_iter().step_by(3).collect();
+    lines.extend(progs::generate_op_limits(rng, 0, tier).into_iter().step_by(11));
+    // 0 / 1 / 2 operands with redundant padding (long atoms, small values)
+    for name in ["op_add", "op_subtract", "op_multiply", "op_logand", "op_logior", "op_logxor", "op_sha256", "op_concat", "op_any", "op_all"] {
+        for flags in [0u32, 0x2000, 0x20] {
+            for pad in [0usize, 1, 9, 99, 300] {
+                for tail in [vec![0x01u8], vec![0x00], vec![0x7f], vec![]] {
+                    for fill in [0x00u8, 0xff] {
+                        let mut b = vec![fill; pad];
+                        b.extend_from_slice(&tail);
+                        let one = T::list(vec![T::Atom(b.clone())]);
+                        lines.push(format!("OP x {} {:x} 0 {}", name, flags, trees::to_hex(&one)));
+                        let two = T::list(vec![T::Atom(b.clone()), T::Atom(vec![2])]);
+                        lines.push(format!("OP x {} {:x} 0 {}", name, flags, trees::to_hex(&two)));
+                    }
+                }
+            }
+            lines.push(format!("OP x {} {:x} 0 80", name, flags));
+        }
+    }
+    for (i, l) in lines.iter().enumerate() {
+        let w: Vec<&str> = l.split(' ').collect();
+        let Some(opcode) = code(w[2]) else { continue };
+        let flags = u32::from_str_radix(w[3], 16).unwrap() & !NO_UNKNOWN_OPS;
+        let args = trees::from_hex(w[5]).unwrap();
+        let mut items = vec![];
+        let mut cur = &args;
+        while let T::Pair(a, b) = cur {
+            items.push(quote((**a).clone()));
+            cur = b;
+        }
+        let prog = call(opcode, items);
+        let env = T::nil();
+        let base = run_full("chia", flags, 0, &prog, &env, "");
+        rep.evaluations += 1;
+        rep.hit(match &base.res { Ok(_) => "ok", Err((k, _)) => k.as_str() });
+        let Ok((cost, _)) = &base.res else { continue };
+        let cost = *cost;
+        rep.nontrivial += 1;
+        if i < 2 {
+            rep.sample(desc(&prog, &env, flags));
+        }
+        let exact = run_full("chia", flags, cost, &prog, &env, "");
+        if exact.res != base.res {
+            rep.fail("budget_ops", format!("{} costs {} but under budget {} -> {:?}", desc(&prog, &env, flags), cost, cost, exact.res));
+        }
+        if flags & NEW_COST_MODEL == 0 && cost > 0 {
+            let short = run_full("chia", flags, cost - 1, &prog, &env, "");
+            if !matches!(&short.res, Err((k, _)) if k == "CostExceeded") {
+                rep.fail("budget_ops", format!("{} costs {} but under budget {} -> {:?}", desc(&prog, &env, flags), cost, cost - 1, short.res));
             }
         }
     }
